@@ -395,7 +395,7 @@ assert sorted(STIMS.values()) == [STIMS[k] for k in sorted(STIMS)]
 PARTS = {1: 'cuddly-bunny', 2: 'able-ox', 3: 'clean-koi'}
 
 
-def _write_meadows(path, shape, ft, files, stim, parts, layout, variant=0):
+def _write_meadows(path, shape, ft, files, stim, parts, layout, varorder=()):
     """write the file the vector describes; files[r] = {'order': [...ids], 'vec': [...]}"""
     from scipy.io import savemat
     if ft == 'mat':
@@ -407,17 +407,15 @@ def _write_meadows(path, shape, ft, files, stim, parts, layout, variant=0):
         if shape == '1p1t':
             savemat(path, {'stimuli': names(0), 'rdmutv': utv(0)})
         elif shape == 'mp1t':
+            # variables are named after the participant; `varorder` is the order they are stored in
             d = {}
             var = [p.replace('-', '_') for p in parts]
-            if variant % 2 == 0:        # as Meadows writes them: all vectors, then all stimulus lists
-                for r, v in enumerate(var):
-                    d['rdmutv_' + v] = utv(r)
-                for r, v in enumerate(var):
-                    d['stimuli_' + v] = names(r)
-            else:
-                for r, v in enumerate(var):
-                    d['stimuli_' + v] = names(r)
-                    d['rdmutv_' + v] = utv(r)
+            for item in varorder:
+                r = item['r'] - 1
+                if item['v'] == 'rdmutv':
+                    d['rdmutv_' + var[r]] = utv(r)
+                else:
+                    d['stimuli_' + var[r]] = names(r)
             savemat(path, d)
         else:                            # single participant, several tasks: not a .mat layout
             savemat(path, {'stimuli': names(0), 'rdmutv': utv(0)})
@@ -473,9 +471,10 @@ def _replay_meadows(rec, root, idx, words=WORDS):
     parts = [PARTS[p] for p in x['plist']]
     files = x['file']
     case = {'file': fname, 'shape': shape, 'sort': bool(i['sort']),
+            'variables_in_file_order': [f"{v['v']}_{parts[v['r'] - 1].replace('-', '_')}" for v in x['varorder']],
             'stimuli_in_file': [[STIMS[s] for s in f['order']] for f in files],
             'vectors_in_file': [f['vec'] for f in files], 'participants': parts, 'task_layout': i['layout']}
-    _write_meadows(path, shape, ft, files, STIMS, parts, i['layout'], variant=idx)
+    _write_meadows(path, shape, ft, files, STIMS, parts, i['layout'], varorder=x['varorder'])
     n = 0
     if not rec['loadable']:
         try:
@@ -541,6 +540,12 @@ def _replay_meadows(rec, root, idx, words=WORDS):
         for k, label in (('conds', 'conds'), ('participant', 'participant'), ('task', 'task'),
                          ('task_index', 'task_index'), ('vec', 'values'), ('experiment_name', 'experiment_name')):
             if k in want and g[k] != want[k]:
+                if (k == 'vec' and shape == 'mp1t' and not i.get('pvar') and len(g[k]) == len(want[k])
+                        and sorted(map(tuple, g[k])) == sorted(map(tuple, want[k]))):
+                    out.append(('viol', f'C20/c/{cls}/participant-values', "a participant is given another "
+                                "participant's dissimilarities (names and vectors are paired by the position of "
+                                "the file's variables instead of by their names)", {**case, 'got': g, 'want': want}))
+                    break
                 what = {'conds': 'stimulus labels differ from the file (in file order / alphabetical order on request)',
                         'vec': 'a dissimilarity is not attached to the two stimuli it belongs to in the file'}.get(
                             k, f'{label} descriptor does not match the file and its name')
@@ -611,7 +616,12 @@ def record_meadows(rng, root, idx, petnames):
     d = os.path.join(root, f'r{idx}')
     os.makedirs(d, exist_ok=True)
     path = os.path.join(d, fname)
-    _write_meadows(path, shape, ft, files, stim, parts, layout, variant=int(rng.integers(2)))
+    uperm = [int(v) + 1 for v in rng.permutation(len(parts))]
+    weave = int(rng.integers(2)) if len(parts) >= 2 else 0
+    sv = [{'v': 'stimuli', 'r': r + 1} for r in range(len(parts))]
+    uv = [{'v': 'rdmutv', 'r': u} for u in uperm]
+    varorder = [x for pair in zip(sv, uv) for x in pair] if weave else uv + sv
+    _write_meadows(path, shape, ft, files, stim, parts, layout, varorder=varorder)
     try:
         with warnings.catch_warnings():
             warnings.simplefilter('ignore')
@@ -636,7 +646,8 @@ def record_meadows(rng, root, idx, petnames):
            if shape == '1pmt' else [],
            'task_index': g['task_index'] if g['task_index'] is not None else []}
     return {'k': 'meadows', 'fname': atoms, 'got': got, 'text': fname,
-            'i': {'order': order, 'sort': sort, 'parts': pids, 'layout': layout, 'pvar': 0}}
+            'i': {'order': order, 'sort': sort, 'parts': pids, 'layout': layout, 'pvar': 0,
+                  'uperm': uperm, 'weave': weave}}
 
 
 # ================================================================== (d) MNE epochs
